@@ -16,7 +16,7 @@ func init() {
 		Level: "other",
 		Explanation: "Structural necessary conditions of 'batch operations equal the per-entity operations they abbreviate': " +
 			"(R1) select before mutate: in every batch operation the table enumeration precedes the first row mutation and is not repeated after one; " +
-			"(R2) bulk moves follow the move protocol (C01/R4), no table pointer is used after the table slice may have grown without being re-derived (C01/R5), and the (table, start, count) handed to the batch callback are the destination table, the destination's length read before the move (or the start returned by it) and the moved count; records written back into a batch list are written through a pointer or index, never into a range-value copy (R8: no field assignment and no storing pointer-receiver method call on a range-value copy whose result is dropped, anywhere in the package); " +
+			"(R2) bulk moves follow the move protocol (C01/R4), no table pointer is used after the table slice may have grown without being re-derived (C01/R5), and the (table, start, count) handed to the batch callback are the destination table, the destination's length read before the move (or the start returned by it) and the moved count; records written back into a batch list are written through a pointer or index, never into a range-value copy (R8: no field assignment and no storing pointer-receiver method call on a range-value copy whose result is dropped, and no field assignment on a local copy of an element that is never used again, anywhere in the package); " +
 			"(R3) row coherence: wherever a callback receives T.GetEntity(i) together with component pointers col.Get(j), i and j are the same expression and every col is a column of table T; " +
 			"(R4) deferred cleanup: in the batch entity removal no call that can free or move tables lies inside the loop over the selected tables; (R5) callbacks run under the internal lock (C07/R2); " +
 			"(R6) scratch exclusivity: while a function holds a scratch slice of the storage (taken into a local, not yet handed back) it calls no function that itself takes that scratch slice; (R9) what is put back into a scratch slot (`slot = list[:0]`) is on every path the slot's own buffer or freshly allocated memory, never a list that belongs to another owner (a cache entry's table list, a table's relation list), followed through re-slices, appends, locals, helper results and parameters; (R10) a batch plan describes each table by itself: no field of a per-table plan record built in the planning loop, and nothing used by a later loop over the records, is a variable that is declared outside the planning loop and overwritten inside it (a memoised destination, one accumulator for all tables) - flags, counters and the record list excepted. " +
@@ -436,6 +436,56 @@ func c06r8(c *core.Ctx) {
 				}
 				return true
 			})
+			return true
+		})
+	}
+	// the same for a local copy of an element: `t := tables[id]; t.isFree = true` changes the copy; unless the copy is
+	// used afterwards (stored back, passed on, returned, its address taken) the update is lost
+	for _, f := range m.AllFuncs() {
+		core.InspectNoLits(f.Body, func(nd ast.Node) bool {
+			def, ok := nd.(*ast.AssignStmt)
+			if !ok || def.Tok != token.DEFINE || len(def.Lhs) != 1 || len(def.Rhs) != 1 {
+				return true
+			}
+			id, ok := def.Lhs[0].(*ast.Ident)
+			if !ok {
+				return true
+			}
+			v, ok := m.Info.Defs[id].(*types.Var)
+			if !ok {
+				return true
+			}
+			if _, isStruct := v.Type().Underlying().(*types.Struct); !isStruct || core.NamedName(v.Type()) == "" {
+				return true
+			}
+			if _, isIx := ast.Unparen(def.Rhs[0]).(*ast.IndexExpr); !isIx {
+				return true
+			}
+			// every mention of the copy after its definition
+			var stores []*ast.AssignStmt
+			other := false
+			lhsIdent := map[*ast.Ident]bool{}
+			core.InspectNoLits(f.Body, func(x ast.Node) bool {
+				if as, isAs := x.(*ast.AssignStmt); isAs && as.Tok == token.ASSIGN && len(as.Lhs) == 1 {
+					if sel, isS := ast.Unparen(as.Lhs[0]).(*ast.SelectorExpr); isS {
+						if bid, isID := ast.Unparen(sel.X).(*ast.Ident); isID && m.Info.ObjectOf(bid) == types.Object(v) && m.FieldOf(sel) != nil {
+							stores = append(stores, as)
+							lhsIdent[bid] = true
+						}
+					}
+				}
+				return true
+			})
+			ast.Inspect(f.Body, func(x ast.Node) bool {
+				if uid, isU := x.(*ast.Ident); isU && uid != id && m.Info.ObjectOf(uid) == types.Object(v) && !lhsIdent[uid] {
+					other = true
+				}
+				return true
+			})
+			if len(stores) > 0 && !other {
+				as := stores[0]
+				c.Violation("C06/R8", fmt.Sprintf("%s: %s", f.Name, m.RawString(as.Lhs[0])), c.At(as.Pos()), fmt.Sprintf("%s assigns %s, a field of a local copy of a %s element that is never used afterwards; the update is lost (the element keeps its old value)", f.Name, m.RawString(as.Lhs[0]), core.NamedName(v.Type())))
+			}
 			return true
 		})
 	}
